@@ -222,6 +222,11 @@ func (w *world) gen() {
 				m.rcpts = append(m.rcpts, r)
 			}
 		}
+		if w.a.Prop == "C09" && s.T.Choose(st, 4) == 0 {
+			// a recipient list that names an address twice (C09 quantifies
+			// over duplicates): one result per acceptance
+			m.rcpts = append(m.rcpts, m.rcpts[0])
+		}
 		switch s.T.Choose(st, 6) {
 		case 0:
 			m.requireTLS = true
